@@ -206,7 +206,9 @@ class Schema:
     def __init__(self, name, spelled=None):
         self.name, self.spelled = name, spelled or name
         self.decls = []
-        self.references = {}   # other Schema -> [decl]
+        self.references = {}   # other Schema -> [decl]                      REFERENCE FROM o (d, …);
+        self.uses = {}         # other Schema -> [(decl, alias or None)]     USE FROM o (d AS alias, …);
+        self.ref_alias = {}    # (other Schema, decl name) -> alias          REFERENCE FROM o (d AS alias, …);
 
     def add(self, d):
         d.schema = self
@@ -231,8 +233,11 @@ class Schema:
 
     def text(self):
         l = [f"SCHEMA {self.spelled};"]
+        for o, ds in self.uses.items():
+            l.append(f"USE FROM {o.spelled} (" + ", ".join(d.spelled + (f" AS {a}" if a else "") for d, a in ds) + ");")
         for o, ds in self.references.items():
-            l.append(f"REFERENCE FROM {o.spelled} (" + ", ".join(d.spelled for d in ds) + ");")
+            l.append(f"REFERENCE FROM {o.spelled} (" + ", ".join(d.spelled + (f" AS {self.ref_alias[(o, d.name)]}" if (o, d.name) in self.ref_alias else "")
+                                                                   for d in ds) + ");")
         for d in self.decls:
             l.append(d.text())
         l.append("END_SCHEMA;")
@@ -751,3 +756,123 @@ def long_identifier_schema(kind, lengths, filler="q"):
     for a in other.attrs:
         a.owner = other
     return SchemaFile([s])
+
+
+def select_chain_schema(names, through_aggregate=False, with_user=True, schema_name="sel_chain"):
+    """a legal ACYCLIC chain of nested selects: names[0] = SELECT (names[1], ent), names[1] = SELECT (names[2], ent), …, the
+    last one SELECT (ent, other).  exp2cxx's checkTypes needs one sweep per link where the outer select precedes its member
+    in the dictionary's (hash) order, so the names decide how many sweeps are needed.  through_aggregate: every member is
+    reached through a `LIST OF` type.  with_user: an entity with an attribute of the outermost and of a middle select."""
+    s = Schema(schema_name)
+    ent = s.add(EntityDecl("link_end"))
+    ent.attrs.append(Attr("nm", TSimple("STRING")))
+    oth = s.add(EntityDecl("link_other"))
+    sels = [TypeDecl(n, "select") for n in names]
+    for i, t in enumerate(sels):
+        if i + 1 < len(sels):
+            if through_aggregate:
+                lst = s.add(TypeDecl("list_of_" + sels[i + 1].name, None))
+                lst.body = TAgg("LIST", None, None, TRef(sels[i + 1]))
+                t.items = [TRef(lst), TRef(ent)]
+            else:
+                t.items = [TRef(sels[i + 1]), TRef(ent)]
+        else:
+            t.items = [TRef(ent), TRef(oth)]
+    for t in sels:
+        s.add(t)
+    if with_user:
+        u = s.add(EntityDecl("link_holder"))
+        u.attrs.append(Attr("outer_pick", TRef(sels[0])))
+        u.attrs.append(Attr("middle_pick", TRef(sels[len(sels) // 2])))
+        for a in u.attrs:
+            a.owner = u
+    for a in ent.attrs:
+        a.owner = ent
+    return SchemaFile([s])
+
+
+def select_cycle_through_aggregates_schema(n=2, schema_name="sel_cycle"):
+    """n >= 2 selects that contain each other in a circle through LIST types (legal EXPRESS, accepted by check-express):
+    TYPE c0 = SELECT (list_of_c1, e); … TYPE c<n-1> = SELECT (list_of_c0, e)"""
+    s = Schema(schema_name)
+    ent = s.add(EntityDecl("cyc_end"))
+    ent.attrs.append(Attr("n", TSimple("INTEGER")))
+    ent.attrs[0].owner = ent
+    sels = [TypeDecl(f"cyc_{i}", "select") for i in range(n)]
+    lists = []
+    for i, t in enumerate(sels):
+        l = TypeDecl(f"list_of_cyc_{i}", None)
+        l.body = TAgg("LIST", None, None, TRef(t))
+        lists.append(l)
+    for i, t in enumerate(sels):
+        t.items = [TRef(lists[(i + 1) % n]), TRef(ent)]
+    for d in lists + sels:
+        s.add(d)
+    return SchemaFile([s])
+
+
+def select_cycle_in(f):
+    """names of selects of a SchemaFile that lie on a cycle of length >= 2 of the relation 'has as item (looking through one
+    aggregate level, as exp2cxx's checkItem does) the select' — the shape on which checkTypes' sweep loop cannot settle"""
+    out = set()
+    for s in f.schemas:
+        sels = {t.name: t for t in s.types() if t.body == "select"}
+        def members(t):
+            r = []
+            for it in t.items:
+                d = it.decl
+                if isinstance(d, TypeDecl) and isinstance(d.body, TAgg) and isinstance(d.body.base, TRef):
+                    d = d.body.base.decl
+                if isinstance(d, TypeDecl):
+                    d = d.root if d.has_head and d.root.body == "select" else d
+                    if d.body == "select" and d.name in sels:
+                        r.append(d.name)
+            return r
+        for n in sels:
+            seen, todo = set(), members(sels[n])
+            while todo:
+                m = todo.pop()
+                if m == n:
+                    out.add(n)
+                    break
+                if m not in seen:
+                    seen.add(m)
+                    todo += members(sels[m])
+    return sorted(out)
+
+
+def item_interfaces_file(n_use=3, n_ref=3, renames=True, names=None):
+    """one file: supplier schemas (each with an entity, an enumeration and a defined type) and a `consumer` schema that takes
+    single items ITEM-WISE from n_use of them with USE FROM s (…) and from n_ref others with REFERENCE FROM s (…),
+    optionally with AS renames, and uses them (attribute types, supertype).  Whole-schema interfaces are not used."""
+    k = n_use + n_ref
+    names = names or [f"supplier_{chr(97 + i)}" for i in range(k)]
+    sups = []
+    for i, n in enumerate(names):
+        s = Schema(n)
+        e = s.add(EntityDecl(f"part_{i}"))
+        e.attrs.append(Attr("nm", TSimple("STRING")))
+        e.attrs[0].owner = e
+        s.add(TypeDecl(f"grade_{i}", "enum", items=[f"low_{i}", f"high_{i}"]))
+        s.add(TypeDecl(f"label_{i}", TSimple("STRING")))
+        sups.append(s)
+    c = Schema("consumer")
+    user = EntityDecl("assembly")
+    for i, s in enumerate(sups):
+        ent, enum, lab = s.decls
+        if i < n_use:
+            alias = f"used_part_{i}" if (renames and i % 2 == 0) else None
+            c.uses[s] = [(ent, alias), (lab, None)]
+            user.attrs.append(Attr(f"p{i}", TRef(ent, spelled=alias or ent.spelled)))
+            user.attrs.append(Attr(f"l{i}", TRef(lab)))
+        else:
+            c.references[s] = [ent, enum]
+            if renames and i % 2 == 1:
+                c.ref_alias[(s, enum.name)] = f"ref_grade_{i}"
+            user.attrs.append(Attr(f"r{i}", TRef(ent)))
+            user.attrs.append(Attr(f"g{i}", TRef(enum, spelled=c.ref_alias.get((s, enum.name), enum.spelled))))
+    for a in user.attrs:
+        a.owner = user
+    c.add(user)
+    order = sups[:len(sups) // 2] + [c] + sups[len(sups) // 2:]
+    return SchemaFile(order)
